@@ -4,6 +4,7 @@ set -e
 id=$1
 d=/tmp/mut/$id
 rm -rf $d; mkdir -p $d/OUT
+git -C /repo worktree prune
 git -C /repo worktree add --detach $d/repo HEAD >/dev/null 2>&1
 python3 - "$id" > $d/PROPERTY.txt <<'PY'
 import json,sys
